@@ -140,7 +140,7 @@ Section For.
     end.
   Proof.
     induction fuel as [|f IH]; intros val idx first chunks; [reflexivity|].
-    cbn [for_loop for_list]. destruct (truthy (cond val (dec_str idx))).
+    cbn [for_loop for_list]. rewrite rev_append_rev, app_nil_r. destruct (truthy (cond val (dec_str idx))).
     - rewrite IH. destruct (for_list f cond incr (incr val (dec_str idx)) (dec_succ idx)) as [l|]; [|reflexivity].
       cbn [option_map]. destruct first.
       + cbn [rev]. rewrite concat_app. cbn [concat]. rewrite app_nil_r, join0_cons. now rewrite <- app_assoc.
